@@ -439,6 +439,11 @@ def check_job(ctx, j, exe, variant, sym, sites, known_sites, results, persist=Fa
                             what="no allocation fails, yet: bad frees %d, errors reported %s" % (
                                 len(rec["badfree"]), [c["msg"] for c in rec["cps"] if c["err"]])))
         return
+    left = [keys.get(o, "?") for o in (rec["cps"][-1]["ords"] if rec["cps"] else []) if sites.life_hint(keys.get(o, "")) != "static"]
+    if left:
+        results.append(dict(base, verdict="violation", k=None, site=left[0],
+                            what="%d blocks are still live after soxr_delete although no allocation failed (leak): %s" % (
+                                len(left), ", ".join(sorted(set(left))[:6]))))
     lines, problems = build_model_input(rec, keys, sites, j["ops"], j["ch"])
     model = run_model(lines) if lines else None
     structure_ok = bool(model) and not model["errors"] and model["n"] == count and model["seq"] == seqkeys and \
@@ -459,7 +464,7 @@ def check_job(ctx, j, exe, variant, sym, sites, known_sites, results, persist=Fa
     for p in problems:
         if "still live after soxr_delete" in p:
             results.append(dict(base, verdict="violation", k=None, site=None, what=p))
-    stat = dict(job=j["name"], variant=variant, calls=count, checked=0, unchecked=0, classes={}, persist_runs=0)
+    stat = dict(job=j["name"], variant=variant, calls=count, checked=0, unchecked=0, classes={}, persist_runs=0, structure_ok=structure_ok)
     allruns = [(r, False) for r in runs if r["k"] >= 0]
     if persist:
         runs2, _ = parse_runs(run_harness(exe, dict(j, persist=1), "all", 0))
@@ -515,8 +520,12 @@ def check_job(ctx, j, exe, variant, sym, sites, known_sites, results, persist=Fa
             r.update(verdict="ok" if ok else "violation", what="; ".join(detail))
         else:
             stat["unchecked"] += 1
-            if real["cls"] == "error-returned" and not real["badfree"] and real["final"] == 0 and \
-                    (real["op"] < 0 and real["live"] == 0 or real["op"] >= 0 and real["live"] == 1):
+            clean = real["cls"] == "error-returned" and not real["badfree"] and real["final"] == 0 and \
+                (real["op"] < 0 and real["live"] == 0 or real["op"] >= 0 and real["live"] == 1)
+            if clean and pers and key in known_sites:
+                # memory stays exhausted: the NULL of this site was stored, the next (checked) call failed too and reported
+                r.update(verdict="known", what="not reported at the site (a later checked call reported)")
+            elif clean:
                 r.update(verdict="repaired", what="site listed as unchecked now reports a clean error")
             elif real["cls"] == "error-returned":
                 r.update(verdict="violation", what="error reported at a site listed as unchecked, but %d blocks live after the call, %d after "
@@ -528,9 +537,22 @@ def check_job(ctx, j, exe, variant, sym, sites, known_sites, results, persist=Fa
                 r.update(verdict="violation", what="unchecked allocation site that is not a listed finding: %s (%s %s)" % (
                     real["cls"], real["status"], " ".join(real["report"])[:200]))
         results.append(r)
+    stat["engine_lists"] = [l[4:].split(" ") for l in (lines or []) if l.startswith("eng ")]
     stat["wall_s"] = round(time.time() - t0, 2)
     stat["sites"] = sorted(set(seqkeys))
     results.append(dict(base, verdict="stat", stat=stat))
+
+
+def lean_witness_lists():
+    """`crEngine` / `crEngineLater` / `vrEngine` of Properties/C20.lean as lists of driver tokens"""
+    txt = open(os.path.join(common.LEAN, "SoxrModel", "Properties", "C20.lean")).read()
+    out = {}
+    for name in ("crEngine", "crEngineLater", "vrEngine"):
+        m = re.search(r"def %s : List Site := \[(.*?)\]\n" % name, txt, re.S)
+        if m:
+            out[name] = ["%s|%s|%s" % (n, k[0], {"temp": "t", "own": "o", "shared": "s", "static": "g", "grow": "r"}[l])
+                         for n, k, l in re.findall(r'⟨"([^"]+)", \.(\w+), \.(\w+)⟩', m.group(1))]
+    return out
 
 
 def crosscheck_sources(sym, sites, where_by_key):
@@ -556,8 +578,18 @@ def run(ctx):
     sites = Sites()
     known = common.known_active("C20")
     known_sites = set(f.get("signature", {}).get("site") for f in known)
-    jobs = QUICK_JOBS if ctx.quick else thorough_jobs(ctx.rng)
+    jobs = thorough_jobs(ctx.rng)
+    if ctx.quick:       # the five fixed jobs and one of the others, chosen by the seed
+        jobs = QUICK_JOBS + [ctx.rng.choice(jobs[len(QUICK_JOBS):])]
     variants = ["san", "rel"]
+    try:
+        cpu = open("/proc/cpuinfo").read()
+    except OSError:
+        cpu = " avx sse2 "
+    if not re.search(r"\bavx\b", cpu):      # SOXR_USE_SIMD=1 would select cr64s on a CPU that cannot run it
+        dropped = [j["name"] for j in jobs if j["simd"] == 1 and (j["q"] >= 6 or j["qf"] & 16) and not j["qf"] & VR]
+        jobs = [j for j in jobs if j["name"] not in dropped]
+        ctx.notes.append("this CPU has no AVX: the cr64s jobs are skipped: " + ", ".join(dropped))
     if getattr(ctx, "replay", None):
         rp = json.load(open(ctx.replay)).get("replay", {})
         if rp.get("job"):
@@ -593,22 +625,33 @@ def run(ctx):
     known_hit = {}
     repaired = set()
     sampled = set()
+    distinct = set()
     nviol = 0
     for r in results:
         v = r["verdict"]
         if v == "stat":
             s = r["stat"]
             ctx.count("evaluations", s["calls"] + s["persist_runs"])
+            ctx.count("structure_ties", 1 if s["structure_ok"] else 0)
             ctx.count("runs_checked_sites", s["checked"])
             ctx.count("runs_unchecked_sites", s["unchecked"])
             for c, n in s["classes"].items():
                 ctx.hist("real_outcome_" + s["variant"], c, n)
             ctx.cov.setdefault("jobs", []).append(dict(job=s["job"], variant=s["variant"], calls=s["calls"], wall_s=s["wall_s"]))
+            if s["variant"] == "san" and s["job"] in (QUICK_JOBS[0]["name"], QUICK_JOBS[2]["name"]):
+                w = lean_witness_lists()
+                el = s["engine_lists"]
+                if s["job"] == QUICK_JOBS[0]["name"]:
+                    ctx.cov["witness_lists_match_recording_cr"] = el[:2] == [w.get("crEngine"), w.get("crEngineLater")]
+                else:
+                    ctx.cov["witness_lists_match_recording_vr"] = el[:1] == [w.get("vrEngine")]
             for k in s["sites"]:
                 ctx.cov.setdefault("sites_seen", {})[k] = sites.kind(k) + ("" if sites.listed(k) else " (unlisted: assumed checked)")
             continue
         if r.get("where") and r.get("site"):
             where_by_key.setdefault(r["site"], set()).add(r["where"])
+        if r.get("real") and r.get("site"):
+            distinct.add((r["job"]["name"], r["site"], r["real"]["cls"]))
         if v == "ok":
             ctx.count("ties_confirmed")
             if (r["site"], r["pred"]) not in sampled:
@@ -635,8 +678,9 @@ def run(ctx):
             seen_violation.add(sig)
             j = r["job"]
             head = "job %s, %s build, no allocation failing: " % (j["name"], r["variant"]) if r["k"] is None else \
-                "job %s, %s build, %s fail (site %s): " % (
-                    j["name"], r["variant"], ("all allocation calls from %d on" if r.get("persist") else "allocation call %d") % r["k"], r.get("site"))
+                "job %s, %s build, %s (site %s): " % (
+                    j["name"], r["variant"], ("all allocation calls from %d on fail" if r.get("persist") else "allocation call %d fails") % r["k"],
+                    r.get("site"))
             ctx.violation(head + r["what"],
                 dict(job=j, k=r["k"], persist=bool(r.get("persist")), site=r.get("site"), source=r.get("where") and "%s:%s" % (os.path.basename(r["where"][1]), r["where"][2]),
                      variant=r["variant"], model_prediction=r.get("pred"), real=r.get("real"),
@@ -651,9 +695,16 @@ def run(ctx):
         ctx.cov["repaired_sites"] = sorted(repaired)
     bad = crosscheck_sources(syms["san"], sites, where_by_key)
     ctx.cov["source_crosscheck_mismatches"] = bad
-    ctx.cov["distinct_nontrivial"] = len(where_by_key)
-    ctx.cov["rule"] = ("every allocation call k of every job fails once, in the sanitizer build and in the release build; the real outcome "
-                       "class must equal the prediction of the Lean model run on the recorded site list")
+    ctx.cov["distinct_nontrivial"] = len(distinct)
+    ctx.cov["distinct_sites"] = len(where_by_key)
+    ctx.cov["traces_validated_against_impl"] = ctx.cov.get("structure_ties", 0)
+    ctx.cov["exhaustive_in_k_per_job"] = True
+    ctx.cov["rule"] = ("a case = (job, build, k, mode): allocation call k of the job fails (mode 1: only call k; mode 2, thorough tier, "
+                       "sanitizer build: every call from k on), for EVERY k the job makes, in the sanitizer and the release build; the real "
+                       "outcome class must equal the prediction of the Lean model run on the recorded site list.  Every case is "
+                       "non-trivial (a different call fails); distinct_nontrivial counts distinct (job, site key, real outcome class) "
+                       "triples, distinct_sites distinct source sites; structure_ties = jobs whose recorded call sequence equals the "
+                       "sequence the model of soxr.c produces from the per-channel engine lists")
     ctx.assume("single-threaded jobs (num_threads = 1): allocation calls are totally ordered and the sequence is deterministic",
                "the libc allocator and libgomp are outside the model; only allocation calls made by objects of libsoxr are failed",
                "an engine's close frees what its create left (abstracted in the model); tested by the enumeration for every k",
